@@ -1,15 +1,16 @@
 SPECIFICATION Spec
 CONSTANTS
-  Dev <- DevAsIs
-  Ops = {"NewObjectId", "AddObject", "Replace", "DeleteObject", "RemoveAnnot", "Prune", "DeletePages", "Renumber", "Compress", "Decompress", "AddPageContents", "ChangePageContent", "ChangeContentStream", "GetOrCreateResources", "AddXObject", "AddGraphicsState", "BuildOutline", "Save", "SaveLoad"}
+  Devs <- DevBoth
+  Ops <- AllOps
   ByteStrings <- BytesQuick
   NumSeqs <- NumsQuick
   NewObjs <- MCNewObjs
   MaxDepth = 2
   Starts <- StartsTiny
-  Allowed = {}
-  Emit = FALSE
-  EmitMod = 1
+  Allowed = {"delete.array.dup", "delete.streamdict", "delete.trailer", "resources.shadow", "contents.refToArray"}
+  Emit = TRUE
+  EmitMod = 50
+  EmitModV = 1
 VIEW View
-INVARIANTS Refines StartOk GhostSync
+INVARIANTS Refines StartOk GhostSync EmitViolations
 CHECK_DEADLOCK FALSE
